@@ -1,6 +1,8 @@
 """E1, loops: composite loop events, alternatives explored from every
 reachable abstract state (closure), convergence checked."""
 import ast
+import os
+import sys
 
 from .repo import AnalysisError
 from .interp import Outcome, NORMAL
@@ -222,6 +224,25 @@ class LoopMixin(object):
                 seen[a] = s
                 work.append((s, iters))
                 if len(seen) > MAX_LOOP_STATES:
+                    if os.environ.get("VERIF_DEBUG_LOOP"):
+                        ks = list(seen)
+                        for i in range(5):
+                            d = set(ks[-1][3]) ^ set(ks[-2][3])
+                            f = set(ks[-1][4]) ^ set(ks[-2][4])
+                        for ci in range(7):
+                            sys.stderr.write("comp %d distinct %d\n" % (ci, len(set(k[ci] for k in ks))))
+                        allf = {}
+                        for k in ks:
+                            for (t, v) in k[4]:
+                                allf.setdefault(t, set()).add(v)
+                        n = len(ks)
+                        for t in allf:
+                            c = sum(1 for k in ks if any(tt == t for tt, _ in k[4]))
+                            if c != n:
+                                sys.stderr.write("fact %s in %d/%d\n" % (str(t)[:200], c, n))
+                        sys.stderr.write("LOOP heap diff %r\nfacts diff %r\nrowfacts %r\n" % (
+                            sorted(map(str, d))[:6], sorted(map(str, f))[:6],
+                            (ks[-1][5] != ks[-2][5], ks[-1][6] != ks[-2][6])))
                     raise AnalysisError(
                         "loop at %s:%d does not converge within %d abstract "
                         "states" % (path, node.lineno, MAX_LOOP_STATES))
